@@ -62,6 +62,10 @@ def build_mesh(osy):
     dg["mass"] = osy.Array(np.array([2.0 + (k * 3 % 7) * 0.25 for k in range(n)]), unit="g")
     dg["temperature"] = osy.Array(np.array([8.0 + (k * 5 % 11) for k in range(n)]), unit="K")
     dg["velocity"] = osy.Vector(p[:, 1] * 2, -p[:, 0] * 2, p[:, 2] * 0 + 0.5, unit="cm/s")
+    # marker radii in the unit of the positions, undefined (NaN) or unbounded (inf) for some rows
+    rad = dxs * 0.25
+    rad[1], rad[4], rad[n - 1] = np.nan, np.inf, np.nan
+    dg["radius"] = osy.Array(rad, unit="cm")
     return dg
 
 
@@ -194,7 +198,7 @@ def snap(obj, ids, raw):
     n = ids[oid] = len(ids)
     raw.append(oid)
     if isinstance(obj, np.ndarray):
-        small = obj.ravel()[:4].tolist() if obj.dtype.kind in "fiub" else None
+        small = repr(obj.ravel()[:4].tolist()) if obj.dtype.kind in "fiub" else None      # repr: NaN must compare equal to itself
         return {"k": "nd", "n": n, "dtype": str(obj.dtype), "shape": list(obj.shape), "sha": _digest(obj), "first": small,
                 "writeable": bool(obj.flags.writeable)}
     if isinstance(obj, dict):
